@@ -74,8 +74,13 @@ def rule_D4(tree: Tree) -> RuleResult:
                     val = try_fold(n.value, default="?")
         keep_false = val is False
     dest_vals = [try_fold(x, default=src(x)) for x in sets.get("<dest>", [])]
+    # the flag must be cleared on every path through the action (bare -m as well as -m a:b)
+    acfg = cfg_of(act.node)
+    keep_nodes = [n for n in acfg.nodes if n.kind == "stmt" and any(isinstance(c, ast.Call) and dotted(c.func) == "setattr" and len(c.args) == 3
+                                                                    and try_fold(c.args[1]) == "keep_original_ports" for c in ast.walk(n.ast))]
+    keep_false = keep_false and len(keep_nodes) == 1 and acfg.postdominates(keep_nodes[0].id, acfg.entry)
     r.ob(keep_false and "values" in dest_vals and ["443:8080"] in dest_vals,
-         Finding("D4", "main:MapPortsAction.__call__:effect", f"-m must store its pairs (bare -m: ['443:8080']) and set keep_original_ports False; found {dest_vals}, keep→False={keep_false}", main.line(act.node)))
+         Finding("D4", "main:MapPortsAction.__call__:effect", f"-m must store its pairs (bare -m: ['443:8080']) and set keep_original_ports False on every path (bare -m too); found {dest_vals}, keep→False on all paths={keep_false}", main.line(act.node)))
     # get_port_map: int keys and values, split on ':' after removing ','
     r.instances += 1
     g = tree.func("main", "get_port_map")
